@@ -484,6 +484,26 @@ pub fn run_c15(ctx: &Ctx, sink: &mut Sink) {
         for f in aggs {
             let a = sess.rout(&sess.eval(&format!("{}(L)", f)));
             let b = sess.rout(&sess.eval(&format!("{}(...L)", f)));
+            // the same numbers spread from two lists (one of them possibly empty) and mixed with plain arguments
+            {
+                let cut = r.below(xs.len() + 1);
+                let la = RVal::List(xs[..cut].iter().map(|x| RVal::num(*x)).collect());
+                let lb = RVal::List(xs[cut..].iter().map(|x| RVal::num(*x)).collect());
+                sess.bind("LA", mk_value(&sess.heap, &la));
+                sess.bind("LB", mk_value(&sess.heap, &lb));
+                for form in ["{}(...LA, ...LB)", "{}(...[], ...L)", "{}(...L, ...[])", "{}(...[], ...LA, ...[], ...LB)", "{}(...LA, ...LB, ...[])"] {
+                    let got = sess.rout(&sess.eval(&form.replace("{}", f)));
+                    let same = match (&a, &got) {
+                        (ROut::Ok(x), ROut::Ok(y)) => x.show() == y.show(),
+                        (ROut::Err(_), ROut::Err(_)) => true,
+                        _ => false,
+                    };
+                    if !same {
+                        sink.viol(&format!("convention-differs f={} split-spread", f), "an aggregate differs when its numbers are spread from several lists", json!({"f": f, "list": l.show(), "cut": cut, "form": form, "f(list)": a.show(), "got": got.show()}));
+                        break;
+                    }
+                }
+            }
             let c = sess.rout(&sess.eval(&format!("{}({})", f, names.join(", "))));
             let s = sess.rout(&sess.eval(&format!("{}(LS)", f)));
             // calling conventions agree exactly (a single number as sole argument is the 1-element case)
